@@ -144,6 +144,68 @@ def messy(rng, i, quick):
     return g.script(), {"obs": obs_i, "commit": commit_i, "deliveries": deliveries, "apply": apply_i, "props": props, "committer": c, "members": members}
 
 
+X, Y = 0xF011, 0xF012
+
+
+def ext_messy(rng, i):
+    """Validity that depends on which group context extensions are in force: a by-reference
+    GroupContextExtensions proposal that some member may not support, next to adds whose key
+    packages support only the old / only the new / both extension types."""
+    caps = {"A": [X], "B": [X, Y], "C": [X], "D": [Y], "E": [X, Y], "F": [X]}
+    all_y = rng.chance(1, 2)
+    if all_y:
+        caps["A"] = [X, Y]
+        caps["C"] = [X, Y]
+    members_cfg = [{"name": n, "exts": caps[n]} for n in "ABCDEF"]
+    ops = [{"op": "create", "who": "A", "ctx_ext_types": [X]}, {"op": "kp", "who": "B", "id": "kB"}, {"op": "kp", "who": "C", "id": "kC"},
+           {"op": "commit", "who": "A", "id": "c0", "add": ["kB", "kC"]}, {"op": "apply", "who": "A"}, {"op": "join", "who": "B", "welcome_any": "c0"}, {"op": "join", "who": "C", "welcome_any": "c0"}]
+    members = ["A", "B", "C"]
+    ops.append({"op": "observe", "who": "A", "observe": "all"})
+    obs_i = len(ops) - 1
+    c = rng.choice(members)
+    for m in members:
+        ops.append({"op": "opts", "who": m, "encrypt_controls": False, "path_required": False})
+    props, tag = [], [0]
+
+    def add(desc, op):
+        tag[0] += 1
+        pid = f"q{tag[0]}"
+        op = dict(op, id=pid)
+        ops.append(op)
+        for m in members:
+            if m != op["who"]:
+                ops.append({"op": "deliver", "to": m, "msg": pid})
+        props.append(dict(desc, tag=tag[0], by_ref=True, proposer=op["who"]))
+
+    new_exts = rng.choice([[Y], [X, Y]])
+    gce_by_value = rng.chance(1, 4)
+    gce_ok = all(set(new_exts) <= set(caps[m]) for m in members)
+    if not gce_by_value:
+        add({"k": "gce", "ok": gce_ok}, {"op": "propose", "who": "B", "kind": "gce", "ext_types": new_exts, "ext_data": "01"})
+    in_force = new_exts if gce_ok else [X]
+    for name in rng.shuffle(["D", "E", "F"])[:1 + rng.below(3)]:
+        ops.append({"op": "kp", "who": name, "id": "kp_" + name})
+        add({"k": "add", "name": name, "kp_ok": set(in_force) <= set(caps[name])}, {"op": "propose", "who": rng.choice(members), "kind": "add", "kp": "kp_" + name})
+    if rng.chance(1, 2):
+        u = rng.choice([m for m in members if m != c])
+        add({"k": "update", "who": u}, {"op": "propose", "who": u, "kind": "update"})
+    cop = {"op": "commit", "who": c, "id": "cm", "add": [], "remove_names": [], "psk": []}
+    if gce_by_value:
+        cop["gce"] = "01"
+        cop["ext_types"] = new_exts
+        tag[0] += 1
+        props.append({"k": "gce", "ok": gce_ok, "tag": tag[0], "by_ref": False, "proposer": c})
+    ops.append(cop)
+    commit_i = len(ops) - 1
+    deliveries = []
+    for m in members:
+        if m != c:
+            ops.append({"op": "deliver", "to": m, "msg": "cm"})
+            deliveries.append(len(ops) - 1)
+    ops.append({"op": "apply", "who": c})
+    return {"name": f"c10-x{i}", "suite": 1, "members": members_cfg, "ops": ops}, {"obs": obs_i, "commit": commit_i, "deliveries": deliveries, "apply": len(ops) - 1, "props": props, "committer": c, "members": members}
+
+
 def descriptor(p, idx):
     if p["k"] == "update":
         return ("update", idx[p["who"]])
@@ -183,7 +245,7 @@ def main(run, args):
         run.violation("harness build failed", herr, failing_input_found=False)
         return
     quick = run.tier == "quick"
-    items = [messy(rng, i, quick) for i in range(60 if quick else 600)]
+    items = [messy(rng, i, quick) for i in range(60 if quick else 600)] + [ext_messy(rng, i) for i in range(24 if quick else 200)]
     recs = run_scripts([x[0] for x in items], timeout=3000)
     failing, mism = [], []
     cases = []
@@ -210,11 +272,11 @@ def main(run, args):
             elif p["k"] == "remove":
                 body = f"(BRemove {idx[p['target']]})"
             elif p["k"] == "add":
-                body = f"(BAdd {tok(p['name'])} true)"
+                body = f"(BAdd {tok(p['name'])} {'false' if p.get('kp_ok') is False else 'true'})"
             elif p["k"] == "psk":
                 body = f"(BPsk {1000 + p['tag']} true true {'true' if p['known'] else 'false'})"
             elif p["k"] == "gce":
-                body = "(BGce true)"
+                body = f"(BGce {'false' if p.get('ok') is False else 'true'})"
             else:
                 body = "(BReinit true)"
             terms.append(f"mk {p['tag']} {body} {snd} {'true' if p['by_ref'] else 'false'}")
